@@ -1,13 +1,3 @@
-(* ProofsMulti3.v - products of three identical callers on the generated skeletons. *)
-From Coq Require Import List Bool.
-From KV.Wait Require Import Ir GenWait Model Explore Systems WaitLemmas.
-Import ListNotations.
-
-Lemma read_3_checked : forall a, let d := sys_n skel Reader 3 a in scheck d (n_inv Reader d) = true.
-Proof. intros []; vm_cast_no_check (eq_refl true). Qed.
-Lemma read_3_full_checked : forall a, let d := sys_n skel Reader 3 a in scheck d (fixed_n_inv d) = true.
-Proof. intros []; vm_cast_no_check (eq_refl true). Qed.
-Lemma write_3_checked : forall a, let d := sys_n skel Writer 3 a in scheck d (n_inv Writer d) = true.
-Proof. intros []; vm_cast_no_check (eq_refl true). Qed.
-Lemma accept_3_checked : forall a, let d := sys_n skel Accepter 3 a in scheck d (n_inv Accepter d) = true.
-Proof. intros []; vm_cast_no_check (eq_refl true). Qed.
+(* ProofsMulti3.v - products of three identical callers on the generated skeletons.  The four
+   explorations live in ProofsMulti3{R,F,W,A}.v (they build in parallel); this file re-exports them. *)
+From KV.Wait Require Export ProofsMulti3R ProofsMulti3F ProofsMulti3W ProofsMulti3A.
